@@ -221,6 +221,11 @@ pub fn canonical_raw(
         let wire = Wire::from(fd.kind());
         match wire {
             Wire::Varint | Wire::I64 | Wire::I32 => {
+                if values.is_empty() {
+                    // The only occurrences of the field were empty packed chunks:
+                    // equivalent to the field being absent.
+                    continue;
+                }
                 if values.len() > 1 {
                     w.write_tag((num << 3) | LEN).unwrap();
                     w.write_bytes(&values.into_iter().flatten().collect::<Vec<_>>())
